@@ -2789,6 +2789,9 @@ def collapse_rests(rest_array):
                 rest_array[i]["duration_div"] = (
                     rest["duration_div"] + rest_array[idx]["duration_div"]
                 )
+                rest_array[i]["duration_quarter"] = (
+                    rest["duration_quarter"] + rest_array[idx]["duration_quarter"]
+                )
                 filter_idx.append(idx)
             output_idx.append(i)
     return rest_array[output_idx], filter_idx
